@@ -19,6 +19,15 @@ from lib import core, native
 from translate import gen
 
 
+def form_dims(form):
+    """regular dimensions announced by a form, whether as nested RegularForm or as NumpyForm(inner_shape)"""
+    import awkward
+    dims = []
+    while isinstance(form, awkward.forms.RegularForm):
+        dims.append(int(form.size)); form = form.content
+    return dims + [int(x) for x in getattr(form, "inner_shape", ())]
+
+
 def tri(n):
     return n * (n + 1) // 2
 
@@ -54,6 +63,11 @@ def cases(rng, thorough):
             cs.append((flat, dim, nobj, [int(v) for v in vals]))
     for n in range(1, 13):
         cs.append((tri(n), n, 2, [int(v) for v in rng.permutation(2 * tri(n))]))
+    # large dimensions (packed length beyond 8-bit / 16-bit index ranges: 23 -> 276, 363 -> 66066 only in the thorough tier)
+    for n in list(range(13, 31)) + [32, 40, 45, 64] + ([100, 363] if thorough else []):
+        cs.append((tri(n), n, 2, [int(v) for v in rng.permutation(2 * tri(n))]))
+        cs.append((tri(n), n + 1, 1, [int(v) for v in rng.permutation(tri(n))]))
+        cs.append((tri(n) - 1, n, 1, [int(v) for v in rng.permutation(tri(n) - 1)]))
     return cs
 
 
@@ -83,8 +97,8 @@ def factory_checks(chk: core.Check):
                 c = f.make_awkward_content(raw.copy())
                 got = np.asarray(awkward.Array(c))
                 form = f.make_awkward_form()
-                if got.shape != (3, n, n) or not np.array_equal(got.reshape(-1), raw) or list(form.inner_shape) != [n, n]:
-                    chk.failing_input("Bes3SymMatrixArrayFactory content/form", {"n": n}, [list(got.shape), list(form.inner_shape)], [[3, n, n], [n, n]], "one n x n block per object in stream order")
+                if got.shape != (3, n, n) or not np.array_equal(got.reshape(-1), raw) or form_dims(form) != [n, n]:
+                    chk.failing_input("Bes3SymMatrixArrayFactory content/form", {"n": n}, [list(got.shape), form_dims(form)], [[3, n, n], [n, n]], "one n x n block per object in stream order")
                     return
     # the same member offered twice with different packed lengths (state must not leak between calls)
     a = F.build_factory("double", {"fName": "m_err", "fArrayDim": 1, "fMaxIndex": np.array([15, 0, 0, 0, 0])}, {}, path)
